@@ -1054,6 +1054,10 @@ package participle
 //@   ensures result1 == nil ==> result0 != nil && len(result0.indexes) >= 0 && result0.s == s && result0.field == 0
 //@   ensures result1 == nil && len(result0.indexes) > 0 ==> slxOK(result0)
 //@ global positionType != nil && tokensType != nil
+// settable walks an index path that reflect's FieldByName returned (valid by construction: assumed).
+//@ func settable [C19 C06]
+//@   trusted
+//@   pure
 //@ func newStrct [C19]
 //@   requires typ != nil
 //@   fresh result
